@@ -49,7 +49,7 @@ func TestC08Binary(t *testing.T) {
 		for i := 0; i < nHosts; i++ {
 			h, err := dialWS(p.addr, nodeIdent(i), i+1)
 			if err != nil {
-				fail("[setup failed] dial: %v", err)
+				fail("%s", p.dialFailure(err))
 			}
 			hosts = append(hosts, h)
 			if err := h.connectHost(ctx); err != nil {
